@@ -4,6 +4,7 @@ import (
 	"fmt"
 	"go/ast"
 	"go/token"
+	"os"
 	"path/filepath"
 	"strings"
 )
@@ -45,6 +46,50 @@ func init() {
 		for _, c := range []string{"Update", "Delete", "Insert", "Mask"} {
 			fmt.Fprintf(out, "def c%s : Nat := %s\n", c, ib.intConst(c))
 		}
+		// leaf builder: fieldsLimit initialiser and the size estimate of tryAdd, as written
+		lf := filepath.Join(repo, "db19/index/btree/leafnode.go")
+		src, err := os.ReadFile(lf)
+		if err != nil {
+			return err
+		}
+		text := string(src)
+		flExpr := ""
+		for _, line := range strings.Split(text, "\n") {
+			if strings.HasPrefix(line, "var fieldsLimit = ") {
+				flExpr = strings.TrimSpace(strings.TrimPrefix(line, "var fieldsLimit = "))
+				if i := strings.Index(flExpr, "//"); i >= 0 {
+					flExpr = strings.TrimSpace(flExpr[:i])
+				}
+			}
+		}
+		if flExpr == "" {
+			return fmt.Errorf("leafnode.go: `var fieldsLimit = …` not found")
+		}
+		for _, c := range flExpr { // only constants of this package, integers, + - * and spaces
+			if !(c == ' ' || c == '+' || c == '-' || c == '*' || c >= '0' && c <= '9' || c >= 'a' && c <= 'z' || c >= 'A' && c <= 'Z') {
+				return fmt.Errorf("leafnode.go: fieldsLimit initialiser %q is not a simple integer expression", flExpr)
+			}
+		}
+		fmt.Fprintf(out, "def fieldsLimit : Nat := %s\n", strings.ReplaceAll(flExpr, "*", " * "))
+		const est = "size := 4 + 7*n + prelen + fieldsLen - n*prelen"
+		const pre = "prefix := str.CommonPrefix(b.prefix, key)\n\t\tprelen := min(255, len(prefix))"
+		lg := parseGo(lf)
+		ta := lg.method("leafBuilder", "tryAdd")
+		body := text[lg.fset.Position(ta.Pos()).Offset:lg.fset.Position(ta.End()).Offset]
+		if !strings.Contains(body, est) || !strings.Contains(body, pre) ||
+			!strings.Contains(body, "if n > splitCount {") || !strings.Contains(body, "if fieldsLen > fieldsLimit {") ||
+			!strings.Contains(body, "if size > maxNodeSize {") {
+			return fmt.Errorf("leafBuilder.tryAdd no longer has the mirrored shape (count test, fieldsLimit test, size estimate with the common prefix including the new key)")
+		}
+		out.WriteString("def leafSizeEst (n prelen fieldsLen : Nat) : Nat := 4 + 7*n + prelen + fieldsLen - n*prelen\n")
+		sz := lg.method("leafBuilder", "size")
+		sbody := text[lg.fset.Position(sz.Pos()).Offset:lg.fset.Position(sz.End()).Offset]
+		if !strings.Contains(sbody, "prelen := min(255, len(b.prefix))") ||
+			!strings.Contains(sbody, "fieldsLen := b.fieldsLen - n*prelen") ||
+			!strings.Contains(sbody, "return 4 + 7*n + prelen + fieldsLen") {
+			return fmt.Errorf("leafBuilder.size no longer has the mirrored shape")
+		}
+		out.WriteString("def prefixCap : Nat := 255\n")
 		// shape: the merge still goes through state.modify with the three asserted cases
 		m := parseGo(filepath.Join(repo, "db19/index/btree/merge.go"))
 		m.method("state", "modify")
